@@ -18,8 +18,9 @@ assumptions("C05", [
     "i.e. a different code path of Binned than the Series / multi-index path the detector uses",
     "loads are small integers times a scale: all range comparisons of the procedure are exact",
     "which pass a hysteresis is booked under follows the flush rule of the implementation (C04 decides whether the count is right)",
-    "batch vs alone is asserted for per-point load maxima (per-node tables) and dyadic load ratios; non-dyadic ratios are "
-    "skipped when a load of any point lies within 1e-9 (relative) of a class edge",
+    "batch vs alone is asserted for per-point load maxima (per-node tables); for load ratios that are powers of two loads and class "
+    "edges scale exactly; for other ratios sequences are i/m with a prime m and a case is skipped when a load or range of any "
+    "point lies within 1e-9 (relative) of a class edge (the class would depend on rounding)",
     "running strain extremes = smallest/largest strain of all points visited so far, including the unloaded state (recorder docstring)",
 ])
 
@@ -165,9 +166,10 @@ def negation(case, ctx):
 def _batches(draw, tier):
     case = draw(_configs(tier))
     n = draw(st.integers(2, 4))
-    dyadic = draw(st.booleans())
+    dyadic = draw(st.sampled_from([True, False, False]))
     if dyadic:
-        factors = [1.0] + [2.0 ** draw(st.integers(-3, 0)) * draw(st.sampled_from([1.0, 0.75, 0.625])) for _ in range(n - 1)]
+        # pure powers of two: loads AND class edges (k/n * max, with a rounded k/n) scale exactly
+        factors = [1.0] + [2.0 ** draw(st.integers(-3, 0)) for _ in range(n - 1)]
     else:
         # general ratios: loads i/m with a prime m, so that loads and ranges (other than +-max, +-2max, which are
         # exact for every point) do not sit on class edges, where the class would depend on rounding
